@@ -249,3 +249,74 @@ def tree_digest(tree) -> str:
     for k in sorted(tree):
         h.update(k.encode()); h.update(b"\0"); h.update(tree[k]); h.update(b"\0")
     return h.hexdigest()[:16]
+
+
+# --------------------------------------------------------------------------------------------- sources (files, URLs)
+
+_HTTP = {"server": None, "files": {}}
+
+
+def http_base():
+    """Loopback HTTP server owned by the harness (one per process), serving _HTTP['files'][path] = (status, headers, body)."""
+    if _HTTP["server"] is None:
+        import http.server
+        import threading
+
+        class H(http.server.BaseHTTPRequestHandler):
+            def do_GET(self):  # noqa: N802
+                ent = _HTTP["files"].get(self.path)
+                if ent is None:
+                    self.send_response(404)
+                    self.send_header("Content-Length", "0")
+                    self.end_headers()
+                    return
+                status, headers, body = ent
+                self.send_response(status)
+                for k, v in headers.items():
+                    self.send_header(k, v)
+                self.send_header("Content-Length", str(len(body)))
+                self.end_headers()
+                self.wfile.write(body)
+
+            def log_message(self, *a):
+                pass
+        srv = http.server.ThreadingHTTPServer(("127.0.0.1", 0), H)
+        threading.Thread(target=srv.serve_forever, daemon=True).start()
+        _HTTP["server"] = srv
+        _HTTP["pid"] = os.getpid()
+    elif _HTTP.get("pid") != os.getpid():       # forked child: start its own
+        _HTTP["server"] = None
+        return http_base()
+    return f"http://127.0.0.1:{_HTTP['server'].server_address[1]}"
+
+
+def serve(path, body, content_type=None, status=200):
+    headers = {"Content-Type": content_type} if content_type else {}
+    base = http_base()
+    _HTTP["files"][path] = (status, headers, body)
+    return base + path
+
+
+def generate_from_source(source, *, meta="none", out=None, overwrite=True, encoding="utf-8", **options) -> GenResult:
+    """The real ``openapi_python_client.generate`` (loader included) on a Path or URL source."""
+    res = GenResult()
+    own = out is None
+    out = Path(out) if out is not None else fresh_dir()
+    try:
+        cfg = mkconfig(out, meta, overwrite=overwrite, encoding=encoding, source=source, **options)
+        with contextlib.redirect_stdout(io.StringIO()):
+            errs = opc.generate(config=cfg)
+        res.diags = [Diag(e) for e in errs]
+        if out.exists():
+            res.tree = read_tree(out)
+        else:
+            res.rejected = True
+        return res
+    except CaseTimeout:
+        raise
+    except Exception as exc:  # noqa: BLE001
+        res.crash = crash_info(exc)
+        return res
+    finally:
+        if own:
+            shutil.rmtree(out, ignore_errors=True)
